@@ -261,6 +261,10 @@ def run(repo, tier) -> Result:
             res.fail("R-ROUND", finding("C10", "R-ROUND", rvf, n.test, "round_values decides whether to round from the value of round_by: a legitimate round_value (e.g. 0) disables rounding"))
         if not conds_on_rb:
             res.fail("R-ROUND", finding("C10", "R-ROUND", rvf, rvf.node, "round_values no longer rounds both plain floats and float fields of dict readings to round_by", construct="round_values: round calls"))
+    # ---- in timeframe configurations the invariants relate readings to the *merged* candle: a merge must wipe the bucket's readings
+    from ..driver import check_merge
+
+    check_merge("C10", res, repo)
     # ---- averages within their inputs: equality with the convex-combination definitions
     load_refs(repo)
     for n in ("SMA", "EMA", "RMA", "WMA"):
